@@ -1,14 +1,29 @@
 (* C05/Properties.v — the property theorems only.  Each is closed by [exact] of a lemma from
-   Proofs.v and followed by Print Assumptions.
+   Proofs.v / Proofs2.v and followed by Print Assumptions.
 
-   [step c v f e] is the literal transcription of pkg/ppp/fsm.go (Model.v part 1); v = Repaired is
-   fsm.go with fixes/C05_fsm_rfc1661_cells.patch and fixes/C05_ncp_lcp_only_codes.patch,
-   v = Defective is fsm.go as it stands.  c = (maxConf, maxTerm, is this an LCP instance).
-   [rfc1661] is the table of RFC 1661 section 4.1 transcribed independently (Model.v part 2).
-   All theorems hold for every configuration c (maxConf, maxTerm), every value of the automaton's
-   variables (hence every restart-counter class and identifier class) and every event. *)
-From OV Require Import Common.Base C05.Model C05.Proofs C05.Proofs2.
+   [step c v f e] is the literal transcription of pkg/ppp/fsm.go (Model.v part 1).
+   v = Repaired is what /repo HEAD implements for every event of the RFC alphabet (the fixes d6fc4b1
+   and 488e192 are in); v = Defective is fsm.go before those fixes (kept for the _refuted witnesses).
+   Two recorded findings remain open on HEAD, both outside [step]'s packet/administrative events:
+   Restore() leaves the restart counter at 0 ([restore false]; repaired: [restore true]) and the timer
+   callback runs Timeout() even when the timer was stopped/restarted meanwhile ([raw_timeout];
+   repaired: a timer expiry needs a pending timer, which is what ETimeout means in [step]).
+   [rfc1661] is the table of RFC 1661 section 4.1 transcribed independently (Model.v part 2), and
+   Rfc2.v a second transcription in the RFC's own row layout.
+   All theorems hold for every configuration c = (maxConf, maxTerm, is-LCP), every value of the
+   automaton's variables (hence every restart-counter class and identifier class) and every event. *)
+From OV Require Import Common.Base C05.Model C05.Rfc2 C05.Proofs C05.Proofs2.
 Open Scope Z_scope.
+
+(* ---- the specification side is transcribed twice ------------------------------------------- *)
+
+(* The block-per-state table of Model.v and the row-per-event table of Rfc2.v (typed in separately,
+   in the RFC's layout, with numeric next states) agree in every cell: 10 states x the 16 rows of
+   the RFC (RXR split into Echo-Request / Echo-Reply+Discard-Request, i.e. 17 classes). *)
+Theorem C05_rfc_tables_agree :
+  forall s e, cell_matches s e = true.
+Proof. exact rfc_tables_agree. Qed.
+Print Assumptions C05_rfc_tables_agree.
 
 (* ---- conformance to the table -------------------------------------------------------------- *)
 
@@ -193,9 +208,11 @@ Print Assumptions C05_updown_nonvacuous.
 (* In every reachable waiting state (Closing, Stopping, Req-Sent, Ack-Rcvd, Ack-Sent) the restart
    counter n is at most Max-Terminate resp. Max-Configure, and n+1 consecutive timeouts with no other
    input end the attempt: exactly n retransmissions, exactly one This-Layer-Finished, final state
-   Closed or Stopped (both variants). *)
+   Closed or Stopped (every variant with the table cells fixed, i.e. HEAD; the timer events do happen:
+   C05_timer_armed). *)
 Theorem C05_bounded :
   forall c v es,
+  fix_cells v = true ->
   0 <= maxConf c -> 0 <= maxTerm c ->
   let f := run c v init es in
   waiting (st f) = true ->
@@ -225,7 +242,7 @@ Theorem C05_timer_armed :
 Proof. exact timer_armed. Qed.
 Print Assumptions C05_timer_armed.
 
-(* Today: Terminate-Request in Opened enters Stopping with no timer — the termination never ends. *)
+(* Before d6fc4b1: Terminate-Request in Opened enters Stopping with no timer — the termination never ends. *)
 Theorem C05_timer_armed_refuted :
   exists es, let f := run default_cfg Defective init es in
     waiting (st f) = true /\ armed f = false.
@@ -239,23 +256,22 @@ Proof. exact timer_nonvac. Qed.
 Print Assumptions C05_timer_armed_nonvacuous.
 
 (* Every negotiation begun from Starting, Closed, Stopped or Opened starts with the full budget of
-   Max-Configure retransmissions (histories in which the timer event happens only while the timer
-   is pending). *)
+   Max-Configure retransmissions — for every history, from a fresh automaton or from one restored
+   into Opened by the repaired Restore. *)
 Theorem C05_fresh_negotiation_budget :
-  forall c es e,
-  let f := run c Repaired init es in
-  timer_ok c Repaired init es = true ->
+  forall c restored es e,
+  let f := run c Repaired (start restored c) es in
   starts_negotiation (st f) = true ->
   existsb is_scr (outs (step c Repaired f e)) = true ->
   restart (step c Repaired f e) = maxConf c /\ negotiating (st (step c Repaired f e)) = true.
 Proof. exact fresh_negotiation. Qed.
 Print Assumptions C05_fresh_negotiation_budget.
 
-(* Today (missing irc on Configure-Ack in Ack-Sent): a renegotiation from Opened can start with the
+(* Before d6fc4b1 (missing irc on Configure-Ack in Ack-Sent): a renegotiation from Opened can start with the
    counter at zero and is abandoned at the first timeout without a single retransmission. *)
 Theorem C05_fresh_negotiation_budget_refuted :
   exists c es e, let f := run c Defective init es in
-    0 < maxConf c /\ timer_ok c Defective init (es ++ [e; ETimeout]) = true /\ st f = Opened /\
+    0 < maxConf c /\ st f = Opened /\
     existsb is_scr (outs (step c Defective f e)) = true /\
     restart (step c Defective f e) = 0 /\
     st (run c Defective f [e; ETimeout]) = Stopped /\
@@ -265,29 +281,77 @@ Print Assumptions C05_fresh_negotiation_budget_refuted.
 
 Example C05_fresh_negotiation_nonvacuous :
   let f := run (mkCfg 2 1 true) Repaired init [EOpen; EUp; RCRp; ETimeout; ETimeout; EInput 2 3 CGood []] in
-  timer_ok (mkCfg 2 1 true) Repaired init [EOpen; EUp; RCRp; ETimeout; ETimeout; EInput 2 3 CGood []] = true /\
   st f = Opened /\ existsb is_scr (outs (step (mkCfg 2 1 true) Repaired f RCRp)) = true /\
   restart (step (mkCfg 2 1 true) Repaired f RCRp) = 2.
 Proof. exact fresh_nonvac. Qed.
 Print Assumptions C05_fresh_negotiation_nonvacuous.
 
-(* ---- Restore / Kill (entry points of fsm.go outside the property's event alphabet) ------------- *)
+(* Open finding 1 (HEAD): Restore() leaves the restart counter at 0, so the first renegotiation of a
+   restored session is abandoned at the first timeout without a retransmission. *)
+Theorem C05_restore_budget_refuted :
+  let f := step default_cfg Repaired (restore false default_cfg init) RCRp in
+  st f = AckSent /\ restart f = 0 /\ armed f = true /\
+  st (step default_cfg Repaired f ETimeout) = Stopped /\
+  count_acts is_retrans (trace default_cfg Repaired f [ETimeout]) = 0%nat.
+Proof. exact restore_budget_refuted. Qed.
+Print Assumptions C05_restore_budget_refuted.
+
+Example C05_restore_budget_nonvacuous :
+  let f := step default_cfg Repaired (restore true default_cfg init) RCRp in
+  st f = AckSent /\ restart f = 10 /\ st (step default_cfg Repaired f ETimeout) = AckSent /\
+  count_acts is_retrans (trace default_cfg Repaired f [ETimeout]) = 1%nat.
+Proof. exact restore_budget_nonvac. Qed.
+Print Assumptions C05_restore_budget_nonvacuous.
+
+(* Open finding 2 (HEAD): the timer callback runs Timeout() although the timer was stopped while the
+   callback waited for the mutex; in Opened that eats one retransmission of the next negotiation.
+   As an event of the model a timer expiry needs a pending timer and otherwise does nothing. *)
+Theorem C05_late_timer_fire_refuted :
+  let f := run default_cfg Repaired init [EOpen; EUp; RCRp; RCA1] in
+  st f = Opened /\ armed f = false /\
+  restart (raw_timeout f) = 9 /\ step default_cfg Repaired f ETimeout = clear_out f /\
+  restart (step default_cfg Repaired (raw_timeout f) RCRp) = 9 /\
+  restart (step default_cfg Repaired (step default_cfg Repaired f ETimeout) RCRp) = 10.
+Proof. exact late_fire_refuted. Qed.
+Print Assumptions C05_late_timer_fire_refuted.
+
+(* ---- Restore / Kill: the alphabet extended by the two administrative entry points -------------- *)
 
 (* Both are silent, stop the timer, and leave the handler state and lastReqID alone. *)
 Theorem C05_restore_kill_silent :
-  forall f,
-  outs (restore f) = [] /\ st (restore f) = Opened /\ armed (restore f) = false /\
-  restart (restore f) = 0 /\ hlog (restore f) = hlog f /\ lastReq (restore f) = lastReq f /\
+  forall fixed c f,
+  outs (restore fixed c f) = [] /\ st (restore fixed c f) = Opened /\ armed (restore fixed c f) = false /\
+  restart (restore fixed c f) = (if fixed then maxConf c else 0) /\
+  hlog (restore fixed c f) = hlog f /\ lastReq (restore fixed c f) = lastReq f /\
   outs (kill f) = [] /\ st (kill f) = Closed /\ armed (kill f) = false /\ hlog (kill f) = hlog f.
 Proof. exact restore_kill_silent. Qed.
 Print Assumptions C05_restore_kill_silent.
 
-(* Observations (not claimed as violations: Restore/Kill are not RFC events): after Restore a
-   renegotiation has no retransmission left; Kill in Opened reports no This-Layer-Down. *)
-Example C05_restore_kill_observations :
-  (let f := step default_cfg Repaired (restore init) (EInput 1 7 CGood []) in
-   st f = AckSent /\ restart f = 0 /\ st (step default_cfg Repaired f ETimeout) = Stopped) /\
-  (let f := run default_cfg Repaired init [EOpen; EUp; EInput 1 7 CGood []; EInput 2 1 CGood []] in
-   st f = Opened /\ st (kill f) = Closed /\ outs (kill f) = []).
-Proof. exact restore_kill_observations. Qed.
-Print Assumptions C05_restore_kill_observations.
+(* Alternation over the extended alphabet {RFC events, Kill, Restore}, for histories that follow the
+   discipline of the production call sites (internal/pppoe: Restore only on a freshly created
+   automaton — installInMemoryState; Kill only as the last operation — terminate): tlu/tld strictly
+   alternate; a restored automaton starts with an up outstanding (the session layer restores its own
+   open flags), a killed one may end with an up outstanding (terminate is the session's layer-down). *)
+Theorem C05_updown_alternate_ext :
+  forall c v fixed restored es killed,
+  alternates restored (xtrace c v fixed init (prod_history restored es killed)) = true.
+Proof. exact alternates_ext. Qed.
+Print Assumptions C05_updown_alternate_ext.
+
+Theorem C05_up_iff_opened_ext :
+  forall c v fixed restored es,
+  up_after restored (xtrace c v fixed init (prod_history restored es false))
+  = is_opened (st (xrun c v fixed init (prod_history restored es false))).
+Proof. exact up_iff_opened_ext. Qed.
+Print Assumptions C05_up_iff_opened_ext.
+
+(* The exact caveat: outside that discipline alternation is false — Kill in Opened followed by a new
+   negotiation reports up twice; Restore of a negotiating automaton followed by Down reports a down
+   without an up. *)
+Theorem C05_updown_alternate_ext_caveats :
+  alternates false (xtrace default_cfg Repaired true init
+     (map XE [EOpen; EUp; RCRp; RCA1] ++ [XKill] ++ map XE [EOpen; RCRp; EInput 2 2 CGood []])) = false /\
+  alternates false (xtrace default_cfg Repaired true init
+     (map XE [EOpen; EUp] ++ [XRestore] ++ map XE [EDown])) = false.
+Proof. exact alternates_ext_caveats. Qed.
+Print Assumptions C05_updown_alternate_ext_caveats.
